@@ -81,7 +81,7 @@ CHECKS = {
     "C19": {
         "level": "exploration",
         "tests": [
-            {"name": "TestC19Laws", "checks": [3000, 150000], "shards": [2, 16], "floor": 0.6},
+            {"name": "TestC19Laws", "checks": [3000, 150000], "shards": [2, 16], "floor": 0.5},
             {"name": "TestC19Numbers", "checks": [3000, 150000], "shards": [1, 8], "floor": 0.6},
             {"name": "TestC19SliceGrid", "enum": True},
             {"name": "TestC19Default", "enum": True},
@@ -153,6 +153,7 @@ CHECKS = {
         "tests": [
             {"name": "TestC14Padding", "checks": [500, 20000], "shards": [2, 16], "floor": 0.5},
             {"name": "TestC14Thresholds", "enum": True},
+            {"name": "TestC14Soup", "checks": [4000, 60000], "shards": [2, 16], "floor": 0.5},
             K,
         ],
         "assumptions": ["padding text has non-blank ends and contains no opening delimiter; comment padding is not placed next to dashed delimiters"],
@@ -160,7 +161,7 @@ CHECKS = {
     "C13": {
         "level": "exploration",
         "tests": [
-            {"name": "TestC13Dashes", "checks": [3000, 100000], "shards": [2, 16], "floor": 0.8},
+            {"name": "TestC13Dashes", "checks": [3000, 100000], "shards": [2, 16], "floor": 0.7},
             {"name": "TestC13Singles", "enum": True},
             K,
         ],
@@ -179,7 +180,7 @@ CHECKS = {
     "C09": {
         "level": "exploration",
         "tests": [
-            {"name": "TestC09Flow", "checks": [3000, 100000], "shards": [2, 16], "floor": 0.8},
+            {"name": "TestC09Flow", "checks": [3000, 100000], "shards": [2, 16], "floor": 0.7},
             {"name": "TestC09Truthiness", "enum": True},
             {"name": "TestC09Loops", "enum": True},
             K,
@@ -201,8 +202,8 @@ CHECKS = {
     "C07": {
         "level": "exploration",
         "tests": [
-            {"name": "TestC07Escape", "checks": [3000, 300000], "shards": [1, 16], "floor": 0.75},
-            {"name": "TestC07Routes", "checks": [3000, 300000], "shards": [1, 8], "floor": 0.75},
+            {"name": "TestC07Escape", "checks": [3000, 300000], "shards": [1, 16], "floor": 0.6},
+            {"name": "TestC07Routes", "checks": [3000, 300000], "shards": [1, 8], "floor": 0.6},
             {"name": "TestC07Codepoints", "enum": True},
             K,
         ],
